@@ -99,3 +99,32 @@ def _empty_dc(pid, v):
     f = (v["case"].get("facts") or {})
     return (pid == "C05" and f.get("empty_dataclass") is True and f.get("whole") is True and f.get("argument_kind") != "dict"
             and v["clause"] == "invalid-input-accepted")
+
+
+@scope("F-SCHEMA-FLAG-ENUM")
+def _schema_flag(pid, v):
+    f = (v["case"].get("facts") or {})
+    ec = set(f.get("error_classes") or [])
+    return (pid == "C06" and v["clause"] == "schema-rejects-serializer-output" and f.get("has_flag") is True
+            and f.get("flag_value_not_single_member") is True and "enum-int" in ec
+            and ec <= ({"enum-int", "keys"} if f.get("has_nonstring_keys") else {"enum-int"}))
+
+
+@scope("F-SCHEMA-NONSTRING-KEYS")
+def _schema_keys(pid, v):
+    f = (v["case"].get("facts") or {})
+    ec = set(f.get("error_classes") or [])
+    return (pid == "C06" and v["clause"] == "schema-rejects-serializer-output" and f.get("has_nonstring_keys") is True
+            and ec == {"keys"})
+
+
+@scope("F-SCHEMA-SELF-REFERENCE")
+def _schema_selfref(pid, v):
+    f = (v["case"].get("facts") or {})
+    return pid in ("C06", "C20") and v["clause"] == "schema-build-raised" and v["outcome"] == "RecursionError" and f.get("self_reference") is True
+
+
+@scope("F-SCHEMA-DEFS-NAME-COLLISION")
+def _schema_defs(pid, v):
+    f = (v["case"].get("facts") or {})
+    return pid == "C06" and v["clause"] == "definitions-shared" and f.get("scenario") in ("same_name_classes", "generic_specialisations")
